@@ -556,7 +556,7 @@ func genEngRedir(r *vh.Rand) string {
 	if gun == "http2" || gun == "connect" {
 		inst, ka = 1, "0"
 	}
-	line := fmt.Sprintf("eng %s %s %d %d r%s%s %d %d", gun, ka, inst, mode, vh.B(r.Chance(5, 6)), genOpts(r), iters, n)
+	line := fmt.Sprintf("eng %s %s %d %d p%sr%s%s %d %d", gun, ka, inst, mode, vh.B(r.Chance(1, 3)), vh.B(r.Chance(5, 6)), genOpts(r), iters, n)
 	nred := r.Range(1, 3)
 	isRed := make([]bool, n)
 	for i := 0; i < nred; i++ {
@@ -646,6 +646,66 @@ func gen(r *vh.Rand, tier string) []string {
 	// redirecting targets (appended after everything else, same reason)
 	for i := 0; i < nEng/2; i++ {
 		out = append(out, genEngRedir(r))
+	}
+	// POST ammo with a body against the ordinary misbehaviours, options mostly on (request-body branches of the logging options)
+	for i := 0; i < nEng/6; i++ {
+		gun := r.Pick([]string{"http", "scenario"})
+		n, iters := r.Range(1, 5), 1
+		if gun == "scenario" {
+			iters = r.Range(1, 2)
+		}
+		opts := fmt.Sprintf("d%st%sg%sa%s", vh.B(r.Bool()), vh.B(r.Bool()), vh.B(r.Chance(2, 3)), r.Pick([]string{"-", "all", "all", "warning", "error"}))
+		line := fmt.Sprintf("eng %s %s %d 0 p1%s %d %d", gun, vh.B(r.Chance(2, 3)), r.Range(1, 2), opts, iters, n)
+		for j := 0; j < n; j++ {
+			line += " " + fastStep(r, gun == "scenario")
+		}
+		out = append(out, line)
+	}
+	// the scenario gun over the http2 client (http2/scenario) against the HTTP/2 target: statuses, stream resets, short and
+	// lying bodies, redirects, with postprocessors
+	for i := 0; i < nEng/6; i++ {
+		n := r.Range(1, 5)
+		line := fmt.Sprintf("eng scenario2 0 1 %d p%sr%s%s %d %d", r.PickInt([]int{0, 0, 0, 0, 0, 1}), vh.B(r.Chance(1, 4)), vh.B(r.Chance(1, 2)), genOpts(r), r.Range(1, 2), n)
+		for j := 0; j < n; j++ {
+			beh, conn, status, bodyok, body := "status", "ok", 200, 1, "ok"
+			switch k := r.Intn(12); {
+			case k < 5:
+				status = r.PickInt([]int{200, 201, 204, 404, 500, 503})
+				body = r.Pick([]string{"ok", "", jsonOK, htmlOK})
+				if status == 204 {
+					body = ""
+				}
+			case k < 6:
+				beh, conn, status, bodyok, body = "h2abort", "reset", 0, 0, ""
+			case k < 7:
+				beh, bodyok, body = "h2trunc", 0, "hello"
+			case k < 8:
+				body = "hello"
+				beh, conn, status, bodyok = genSizeLie(r, body, true)
+			case k < 11:
+				status = r.PickInt([]int{301, 302, 303, 307, 308})
+				beh, body = fmt.Sprintf("redir:%d:%s", status, r.Pick([]string{fmt.Sprintf("s%d", j), fmt.Sprintf("s%d", r.Intn(n+1)), "p", "n", "b", "d", fmt.Sprintf("a%d", r.Intn(n))})), "moved"
+			}
+			tok, pp := "", "-"
+			if conn == "ok" {
+				switch r.Intn(5) {
+				case 0:
+					tok, pp = r.Pick(tokVals[1:10]), "h:-"
+				case 1:
+					pp = "j:" + vh.B(body == jsonOK)
+				case 2:
+					pp = fmt.Sprintf("a:%d:%s", r.PickInt([]int{0, 200}), vh.HexS("ok"))
+				case 3:
+					pp = "x:nodeset"
+				}
+			}
+			line += fmt.Sprintf(" %s %s %d %d %s %s %s - -", beh, conn, status, bodyok, vh.HexS(body), vh.HexS(tok), pp)
+		}
+		out = append(out, line)
+	}
+	// grpc/scenario gun against a scripted target
+	for i := 0; i < nEng/3; i++ {
+		out = append(out, genGscn(r))
 	}
 	return out
 }
